@@ -119,10 +119,10 @@ theorem Hb_pending1 {s : Server} {k : Nat} (h1 : k ∉ s.parked) (h2 : k ∉ s.p
   rw [a, b, c, d]
   simp
 
-/-! ### `Quiet` and `Act`: transitions that leave the three lists alone -/
+/-! ### `QuietC` and `Act`: transitions that leave the three lists alone -/
 
 /-- nothing `Hb` looks at changes: lists kept, `isOpen` / `stopped` / `inline` / `id` of every object kept -/
-structure Quiet (s s' : Server) : Prop where
+structure QuietC (s s' : Server) : Prop where
   len : s'.objs.length = s.objs.length
   connOf : s'.connOf = s.connOf
   pending : s'.pending = s.pending
@@ -130,20 +130,20 @@ structure Quiet (s s' : Server) : Prop where
   parkedEarly : s'.parkedEarly = s.parkedEarly
   all : ∀ k, OwnEq (getObj s k) (getObj s' k)
 
-theorem Quiet.refl (s : Server) : Quiet s s := ⟨rfl, rfl, rfl, rfl, rfl, fun _ => OwnEq.refl _⟩
+theorem QuietC.refl (s : Server) : QuietC s s := ⟨rfl, rfl, rfl, rfl, rfl, fun _ => OwnEq.refl _⟩
 
-theorem Quiet.trans {s s1 s2 : Server} (h : Quiet s s1) (g : Quiet s1 s2) : Quiet s s2 :=
+theorem QuietC.trans {s s1 s2 : Server} (h : QuietC s s1) (g : QuietC s1 s2) : QuietC s s2 :=
   ⟨g.len.trans h.len, g.connOf.trans h.connOf, g.pending.trans h.pending, g.parked.trans h.parked,
    g.parkedEarly.trans h.parkedEarly, fun k => (h.all k).trans (g.all k)⟩
 
 /-- a change to server fields other than `objs`, `connOf`, `pending`, `parked`, `parkedEarly` -/
-theorem Quiet.upd {s0 s s' : Server} (h : Quiet s0 s) (ho : s'.objs = s.objs) (hn : s'.connOf = s.connOf)
-    (hp : s'.pending = s.pending) (h1 : s'.parked = s.parked) (h2 : s'.parkedEarly = s.parkedEarly) : Quiet s0 s' :=
+theorem QuietC.upd {s0 s s' : Server} (h : QuietC s0 s) (ho : s'.objs = s.objs) (hn : s'.connOf = s.connOf)
+    (hp : s'.pending = s.pending) (h1 : s'.parked = s.parked) (h2 : s'.parkedEarly = s.parkedEarly) : QuietC s0 s' :=
   ⟨by rw [ho]; exact h.len, hn.trans h.connOf, hp.trans h.pending, h1.trans h.parked, h2.trans h.parkedEarly,
    fun k => by rw [getObj_of_objs_eq ho k]; exact h.all k⟩
 
-theorem Quiet.set {s0 s : Server} (h : Quiet s0 s) (i : Nat) (c : Client) (hc : OwnEq (getObj s i) c) :
-    Quiet s0 (setObj s i c) := by
+theorem QuietC.set {s0 s : Server} (h : QuietC s0 s) (i : Nat) (c : Client) (hc : OwnEq (getObj s i) c) :
+    QuietC s0 (setObj s i c) := by
   refine ⟨(setObj_length s i c).trans h.len, h.connOf, h.pending, h.parked, h.parkedEarly, fun k => ?_⟩
   by_cases hk : k = i
   · subst hk
@@ -152,14 +152,14 @@ theorem Quiet.set {s0 s : Server} (h : Quiet s0 s) (i : Nat) (c : Client) (hc : 
     · exact h.all k
   · rw [getObj_setObj_ne s i k c hk]; exact h.all k
 
-theorem Quiet.mod {s0 s : Server} (h : Quiet s0 s) (i : Nat) (f : Client → Client)
-    (hf : OwnEq (getObj s i) (f (getObj s i))) : Quiet s0 (modObj s i f) := h.set i _ hf
+theorem QuietC.mod {s0 s : Server} (h : QuietC s0 s) (i : Nat) (f : Client → Client)
+    (hf : OwnEq (getObj s i) (f (getObj s i))) : QuietC s0 (modObj s i f) := h.set i _ hf
 
-theorem Quiet.fst_mk {α} {s0 x : Server} {y : α} (h : Quiet s0 x) : Quiet s0 (x, y).1 := h
+theorem QuietC.fst_mk {α} {s0 x : Server} {y : α} (h : QuietC s0 x) : QuietC s0 (x, y).1 := h
 
 /-- from the delivery family -/
-theorem Quiet.of_deliv {s s' : Server} (d : Deliv s s') (hp : s'.pending = s.pending) (h1 : s'.parked = s.parked)
-    (h2 : s'.parkedEarly = s.parkedEarly) : Quiet s s' :=
+theorem QuietC.of_deliv {s s' : Server} (d : Deliv s s') (hp : s'.pending = s.pending) (h1 : s'.parked = s.parked)
+    (h2 : s'.parkedEarly = s.parkedEarly) : QuietC s s' :=
   ⟨d.len, d.connOf, hp, h1, h2, fun k => (d.all k).own⟩
 
 /-- work on behalf of object `i` that leaves the three lists alone; every OTHER object keeps its flags -/
@@ -180,7 +180,7 @@ theorem Act.trans {i : Nat} {s s1 s2 : Server} (h : Act i s s1) (g : Act i s1 s2
    g.parkedEarly.trans h.parkedEarly, fun k hk => (h.other k hk).trans (g.other k hk), g.inl.trans h.inl,
    g.id.trans h.id⟩
 
-theorem Quiet.act {s s' : Server} (h : Quiet s s') (i : Nat) : Act i s s' :=
+theorem QuietC.act {s s' : Server} (h : QuietC s s') (i : Nat) : Act i s s' :=
   ⟨h.len, h.connOf, h.pending, h.parked, h.parkedEarly, fun k _ => h.all k, (h.all i).inline.symm, (h.all i).id.symm⟩
 
 theorem Act.of_frame {i : Nat} {s s' : Server} {o : List Out} (f : Frame i s s' o) (hp : s'.pending = s.pending)
@@ -190,7 +190,7 @@ theorem Act.of_frame {i : Nat} {s s' : Server} {o : List Out} (f : Frame i s s' 
 /-- a change to server fields other than `objs`, `connOf`, `pending`, `parked`, `parkedEarly` -/
 theorem Act.upd {i : Nat} {s0 s s' : Server} (h : Act i s0 s) (ho : s'.objs = s.objs) (hn : s'.connOf = s.connOf)
     (hp : s'.pending = s.pending) (h1 : s'.parked = s.parked) (h2 : s'.parkedEarly = s.parkedEarly) : Act i s0 s' :=
-  h.trans ((Quiet.refl s).upd ho hn hp h1 h2 |>.act i)
+  h.trans ((QuietC.refl s).upd ho hn hp h1 h2 |>.act i)
 
 theorem hcount_act {i : Nat} {s s' : Server} (a : Act i s s') (hi : i < s.objs.length) :
     (hcount s' : Int) = hcount s + b2i (Hb s' i) - b2i (Hb s i) := by
@@ -199,7 +199,7 @@ theorem hcount_act {i : Nat} {s s' : Server} (a : Act i s s') (hi : i < s.objs.l
   exact countP_range_update (Hb s') (Hb s) _ i hi
     (fun k hk => Hb_congr a.parked a.parkedEarly a.pending (a.other k hk).isOpen.symm)
 
-theorem hcount_quiet {s s' : Server} (q : Quiet s s') : hcount s' = hcount s := by
+theorem hcount_quiet {s s' : Server} (q : QuietC s s') : hcount s' = hcount s := by
   unfold hcount
   rw [q.len]
   exact countP_range_congr _ _ _ (fun k _ => Hb_congr q.parked q.parkedEarly q.pending (q.all k).isOpen.symm)
@@ -291,7 +291,7 @@ theorem Side.of_act {i : Nat} {s s' : Server} (h : Side s) (a : Act i s s') (hip
     · subst hki; rw [a.inl]; exact h.inl k hk
     · rw [← (a.other k hki).inline]; exact h.inl k hk
 
-theorem Side.of_quiet {s s' : Server} (h : Side s) (q : Quiet s s') : Side s' := by
+theorem Side.of_quiet {s s' : Server} (h : Side s) (q : QuietC s s') : Side s' := by
   refine ⟨?_, ?_, ?_, ?_, ?_, ?_, ?_, ?_, ?_, by rw [q.pending]; exact h.pendOK, by rw [q.parked]; exact h.parked_nz,
     by rw [← (q.all 0).inline]; exact h.inl0⟩
   · intro k hk
@@ -317,7 +317,7 @@ structure ConnInv (s : Server) : Prop where
   /-- `ClientsConnected` is the number of handlers between their increment and their deferred decrement -/
   eq : s.info.connected = hcount s
 
-theorem ConnInv.of_quiet {s s' : Server} (h : ConnInv s) (q : Quiet s s') (hc : s'.info.connected = s.info.connected) :
+theorem ConnInv.of_quiet {s s' : Server} (h : ConnInv s) (q : QuietC s s') (hc : s'.info.connected = s.info.connected) :
     ConnInv s' :=
   ⟨h.side.of_quiet q, by rw [hc, h.eq, hcount_quiet q]⟩
 
@@ -329,51 +329,51 @@ theorem trivial_laws : Laws (fun _ => True) :=
 
 abbrev CoreT := CoreR (fun _ => True)
 
-theorem clearInflights_quiet (s : Server) (i : Nat) : Quiet s (clearInflights s i) := by
+theorem clearInflights_quiet_cnt (s : Server) (i : Nat) : QuietC s (clearInflights s i) := by
   unfold clearInflights
   extract_lets +onlyGivenNames c n
-  exact ((Quiet.refl s).set i _ (by own_rfl)).upd rfl rfl rfl rfl rfl
+  exact ((QuietC.refl s).set i _ (by own_rfl)).upd rfl rfl rfl rfl rfl
 
-theorem unsubscribeClient_quiet (s : Server) (i : Nat) : Quiet s (unsubscribeClient s i) := by
+theorem unsubscribeClient_quiet (s : Server) (i : Nat) : QuietC s (unsubscribeClient s i) := by
   unfold unsubscribeClient
   extract_lets +onlyGivenNames c s1
-  have h1 : Quiet s s1 := (Quiet.refl s).set i _ (by own_rfl)
+  have h1 : QuietC s s1 := (QuietC.refl s).set i _ (by own_rfl)
   split
   · exact h1
-  · refine foldl_inv (fun (x : Server) => Quiet s x) _ _ _ h1 ?_
+  · refine foldl_inv (fun (x : Server) => QuietC s x) _ _ _ h1 ?_
     intro b a h
     exact h.upd rfl rfl rfl rfl rfl
 
-theorem publishToSubscribers_quiet (s : Server) (pk : Msg) : Quiet s (publishToSubscribers s pk).1 :=
+theorem publishToSubscribers_quiet_cnt (s : Server) (pk : Msg) : QuietC s (publishToSubscribers s pk).1 :=
   have c : CoreT s (publishToSubscribers s pk).1 := publishToSubscribers_core s pk
-  Quiet.of_deliv (publishToSubscribers_deliv s pk) (publishToSubscribers_good s pk).pending c.parked c.parkedEarly
+  QuietC.of_deliv (publishToSubscribers_deliv s pk) (publishToSubscribers_good s pk).pending c.parked c.parkedEarly
 
-theorem retainMsg_quiet (s : Server) (pk : Msg) : Quiet s (retainMsg s pk) :=
+theorem retainMsg_quiet_cnt (s : Server) (pk : Msg) : QuietC s (retainMsg s pk) :=
   have c : CoreT s (retainMsg s pk) := retainMsg_core trivial_laws s pk
-  Quiet.of_deliv (retainMsg_deliv s pk) (retainMsg_good s pk).pending c.parked c.parkedEarly
+  QuietC.of_deliv (retainMsg_deliv s pk) (retainMsg_good s pk).pending c.parked c.parkedEarly
 
-theorem admitConnack_quiet (s : Server) (i conn : Nat) (present : Bool) : Quiet s (admitConnack s i conn present).1 := by
+theorem admitConnack_quiet_cnt (s : Server) (i conn : Nat) (present : Bool) : QuietC s (admitConnack s i conn present).1 := by
   unfold admitConnack
   extract_lets +onlyGivenNames cl
   split
   rename_i s' seiOut heq
-  show Quiet s s'
+  show QuietC s s'
   split at heq
   · cases heq
-    exact (Quiet.refl s).mod i _ (by own_rfl)
+    exact (QuietC.refl s).mod i _ (by own_rfl)
   · cases heq
-    exact Quiet.refl s
+    exact QuietC.refl s
 
-theorem admitC_quiet (s : Server) (i : Nat) (k : Connect) (present : Bool) : Quiet s (admitC s i k present).1 := by
+theorem admitC_quiet_cnt (s : Server) (i : Nat) (k : Connect) (present : Bool) : QuietC s (admitC s i k present).1 := by
   unfold admitC
   extract_lets +onlyGivenNames s1
-  have hs1 : Quiet s s1 := (Quiet.refl s).upd rfl rfl rfl rfl rfl
+  have hs1 : QuietC s s1 := (QuietC.refl s).upd rfl rfl rfl rfl rfl
   split
-  · refine foldl_inv (fun (acc : Server × List Out) => Quiet s acc.1) _ _ _ hs1 ?_
+  · refine foldl_inv (fun (acc : Server × List Out) => QuietC s acc.1) _ _ _ hs1 ?_
     intro acc m h
     extract_lets +onlyGivenNames m' o s'
-    show Quiet s s'
-    show Quiet s (if (m.type == 4 || m.type == 7) = true then _ else acc.1)
+    show QuietC s s'
+    show QuietC s (if (m.type == 4 || m.type == 7) = true then _ else acc.1)
     split
     · split
       rename_i c' ok heq
@@ -382,42 +382,42 @@ theorem admitC_quiet (s : Server) (i : Nat) (k : Connect) (present : Bool) : Qui
         have := OwnEq.flDelete' (getObj acc.1 i) m.id
         rw [heq] at this
         exact this
-      have h2 : Quiet s s'' := h.set i c' hc'
+      have h2 : QuietC s s'' := h.set i c' hc'
       split
       · exact h2.upd rfl rfl rfl rfl rfl
       · exact h2
     · exact h
   · exact hs1
 
-theorem tickClients_quiet (s : Server) (dt : Int) : Quiet s (tickClients s dt).1 := by
+theorem tickClients_quiet (s : Server) (dt : Int) : QuietC s (tickClients s dt).1 := by
   unfold tickClients
-  refine foldl_inv (fun (acc : Server × List Out) => Quiet s acc.1) _ _ _ (Quiet.refl s) ?_
+  refine foldl_inv (fun (acc : Server × List Out) => QuietC s acc.1) _ _ _ (QuietC.refl s) ?_
   intro acc e h
   extract_lets +onlyGivenNames c
   split
   · extract_lets +onlyGivenNames s1 s2
-    exact ((h.trans (clearInflights_quiet acc.1 e.2)).trans (unsubscribeClient_quiet s1 e.2)).upd rfl rfl rfl rfl rfl
+    exact ((h.trans (clearInflights_quiet_cnt acc.1 e.2)).trans (unsubscribeClient_quiet s1 e.2)).upd rfl rfl rfl rfl rfl
   · exact h
 
-theorem tickRetained_quiet (s : Server) (now : Int) : Quiet s (tickRetained s now) := by
+theorem tickRetained_quiet_cnt (s : Server) (now : Int) : QuietC s (tickRetained s now) := by
   unfold tickRetained
   extract_lets +onlyGivenNames s1
-  refine Quiet.upd (s := s1) ?_ rfl rfl rfl rfl rfl
-  show Quiet s (tickRetained.tickRetainedLoop s now)
+  refine QuietC.upd (s := s1) ?_ rfl rfl rfl rfl rfl
+  show QuietC s (tickRetained.tickRetainedLoop s now)
   unfold tickRetained.tickRetainedLoop
-  refine foldl_inv (fun (x : Server) => Quiet s x) _ _ _ (Quiet.refl s) ?_
+  refine foldl_inv (fun (x : Server) => QuietC s x) _ _ _ (QuietC.refl s) ?_
   intro b e h
   extract_lets +onlyGivenNames pk expired enforced
   split
   · exact h.upd rfl rfl rfl rfl rfl
   · exact h
 
-theorem tickInflight_quiet (s : Server) (now : Int) : Quiet s (tickInflight s now) := by
+theorem tickInflight_quiet_cnt (s : Server) (now : Int) : QuietC s (tickInflight s now) := by
   unfold tickInflight
-  refine foldl_inv (fun (x : Server) => Quiet s x) _ _ _ (Quiet.refl s) ?_
+  refine foldl_inv (fun (x : Server) => QuietC s x) _ _ _ (QuietC.refl s) ?_
   intro b e h
   extract_lets +onlyGivenNames c
-  refine foldl_inv (fun (x : Server) => Quiet s x) _ _ _ h ?_
+  refine foldl_inv (fun (x : Server) => QuietC s x) _ _ _ h ?_
   intro b2 m h2
   extract_lets +onlyGivenNames expired enforced
   split
@@ -428,34 +428,34 @@ theorem tickInflight_quiet (s : Server) (now : Int) : Quiet s (tickInflight s no
       have := OwnEq.flDelete' (getObj b2 e.2) m.id
       rw [heq] at this
       exact this
-    have h3 : Quiet s s1 := h2.set e.2 c' hc'
+    have h3 : QuietC s s1 := h2.set e.2 c' hc'
     split
     · exact h3.upd rfl rfl rfl rfl rfl
     · exact h3
   · exact h2
 
-theorem tickWills_quiet (s : Server) (dt : Int) : Quiet s (tickWills s dt).1 := by
+theorem tickWills_quiet_cnt (s : Server) (dt : Int) : QuietC s (tickWills s dt).1 := by
   unfold tickWills
-  refine foldl_inv (fun (acc : Server × List Out) => Quiet s acc.1) _ _ _ (Quiet.refl s) ?_
+  refine foldl_inv (fun (acc : Server × List Out) => QuietC s acc.1) _ _ _ (QuietC.refl s) ?_
   intro acc e h
   split
   · split
     rename_i s1 o h1
-    have g1 : Quiet s s1 := by
-      have := publishToSubscribers_quiet acc.1 e.2
+    have g1 : QuietC s s1 := by
+      have := publishToSubscribers_quiet_cnt acc.1 e.2
       rw [h1] at this
       exact h.trans this
     split
     rename_i s2 o2 h2
-    have g2 : Quiet s s2 := by
+    have g2 : QuietC s s2 := by
       split at h2
       · rename_i i _
         extract_lets +onlyGivenNames s3 at h2
         rw [← (Prod.mk.inj h2).1]
-        have g3 : Quiet s s3 := by
-          show Quiet s (if e.2.retain = true then retainMsg s1 e.2 else s1)
+        have g3 : QuietC s s3 := by
+          show QuietC s (if e.2.retain = true then retainMsg s1 e.2 else s1)
           split
-          · exact g1.trans (retainMsg_quiet s1 e.2)
+          · exact g1.trans (retainMsg_quiet_cnt s1 e.2)
           · exact g1
         exact g3.mod i _ (by own_rfl)
       · cases h2; exact g1
@@ -554,7 +554,7 @@ theorem stopClient_act (s : Server) (i : Nat) :
     Act i s (stopClient s i).1 ∧ (stopClient s i).1.info.connected = s.info.connected :=
   act_of (stopClient_frame s i) (stopClient_good s i) (stopClient_core s i)
 
-theorem stopClient_stopped (s : Server) (i : Nat) (hi : i < s.objs.length) :
+theorem stopClient_stopped_cnt (s : Server) (i : Nat) (hi : i < s.objs.length) :
     (getObj (stopClient s i).1 i).stopped = true := by
   unfold stopClient
   extract_lets +onlyGivenNames c
@@ -572,29 +572,29 @@ theorem disconnectClient_fst (s : Server) (i code : Nat) : (disconnectClient s i
 
 theorem detachA_true_fst (s : Server) (i : Nat) : (detachA s i true).1 = (stopClient (sendLWT s i).1 i).1 := rfl
 
-theorem detachA_true_stopped (s : Server) (i : Nat) (hi : i < s.objs.length) :
+theorem detachA_true_stopped_cnt (s : Server) (i : Nat) (hi : i < s.objs.length) :
     (getObj (detachA s i true).1 i).stopped = true := by
   rw [detachA_true_fst]
-  exact stopClient_stopped _ i (by rw [(sendLWT_frame s i).len]; exact hi)
+  exact stopClient_stopped_cnt _ i (by rw [(sendLWT_frame s i).len]; exact hi)
 
-theorem detachA_false_quiet (s : Server) (i : Nat) : Quiet s (detachA s i false).1 := by
+theorem detachA_false_quiet (s : Server) (i : Nat) : QuietC s (detachA s i false).1 := by
   unfold detachA
   simp only [Bool.false_eq_true, if_false]
-  exact (Quiet.refl s).mod i _ (by own_rfl)
+  exact (QuietC.refl s).mod i _ (by own_rfl)
 
 theorem detachB_quiet (s : Server) (i : Nat) :
-    Quiet s (detachB s i) ∧ (detachB s i).info.connected = s.info.connected - 1 := by
+    QuietC s (detachB s i) ∧ (detachB s i).info.connected = s.info.connected - 1 := by
   unfold detachB
   extract_lets +onlyGivenNames c expire s3 s4 s2
-  have h2 : Quiet s s2 ∧ s2.info.connected = s.info.connected := by
-    show Quiet s (if (expire && !c.takenOver) = true then _ else s) ∧
+  have h2 : QuietC s s2 ∧ s2.info.connected = s.info.connected := by
+    show QuietC s (if (expire && !c.takenOver) = true then _ else s) ∧
       (if (expire && !c.takenOver) = true then _ else s).info.connected = s.info.connected
     split
-    · have q3 : Quiet s s3 := clearInflights_quiet s i
-      have q4 : Quiet s s4 := q3.trans (unsubscribeClient_quiet s3 i)
+    · have q3 : QuietC s s3 := clearInflights_quiet_cnt s i
+      have q4 : QuietC s s4 := q3.trans (unsubscribeClient_quiet s3 i)
       have c4 : CoreT s s4 := (clearInflights_core s i).trans (unsubscribeClient_core trivial_laws s3 i)
       exact ⟨q4.upd rfl rfl rfl rfl rfl, c4.conn⟩
-    · exact ⟨Quiet.refl s, rfl⟩
+    · exact ⟨QuietC.refl s, rfl⟩
   refine ⟨h2.1.upd rfl rfl rfl rfl rfl, ?_⟩
   show s2.info.connected - 1 = _
   rw [h2.2]
@@ -610,11 +610,11 @@ theorem detach_true_act (s : Server) (i : Nat) (hi : i < s.objs.length) :
   obtain ⟨q, cq⟩ := detachB_quiet (detachA s i true).1 i
   refine ⟨a.trans (q.act i), by rw [cq, ca], ?_⟩
   rw [← (q.all i).stopped]
-  exact detachA_true_stopped s i hi
+  exact detachA_true_stopped_cnt s i hi
 
 /-- leaving the read loop normally: the flags stay, the counter is decremented -/
 theorem detach_false_quiet (s : Server) (i : Nat) :
-    Quiet s (detach s i false).1 ∧ (detach s i false).1.info.connected = s.info.connected - 1 := by
+    QuietC s (detach s i false).1 ∧ (detach s i false).1.info.connected = s.info.connected - 1 := by
   rw [detach_fst]
   have qa := detachA_false_quiet s i
   have ca : (detachA s i false).1.info.connected = s.info.connected := (detachA_act s i false).2
@@ -760,18 +760,18 @@ theorem recvOn_conn (s : Server) (c : Nat) (pk : InPk) (b : Bool) (hw : WF s) (h
 
 /-! ### connecting -/
 
-/-- `Quiet` that also keeps `ClientsConnected` -/
-structure QC (s s' : Server) : Prop where
-  q : Quiet s s'
+/-- `QuietC` that also keeps `ClientsConnected` -/
+structure QCC (s s' : Server) : Prop where
+  q : QuietC s s'
   c : s'.info.connected = s.info.connected
 
-theorem QC.refl (s : Server) : QC s s := ⟨Quiet.refl s, rfl⟩
-theorem QC.trans {s s1 s2 : Server} (h : QC s s1) (g : QC s1 s2) : QC s s2 := ⟨h.q.trans g.q, g.c.trans h.c⟩
-theorem QC.upd {s0 s s' : Server} (h : QC s0 s) (ho : s'.objs = s.objs) (hn : s'.connOf = s.connOf)
+theorem QCC.refl (s : Server) : QCC s s := ⟨QuietC.refl s, rfl⟩
+theorem QCC.trans {s s1 s2 : Server} (h : QCC s s1) (g : QCC s1 s2) : QCC s s2 := ⟨h.q.trans g.q, g.c.trans h.c⟩
+theorem QCC.upd {s0 s s' : Server} (h : QCC s0 s) (ho : s'.objs = s.objs) (hn : s'.connOf = s.connOf)
     (hp : s'.pending = s.pending) (h1 : s'.parked = s.parked) (h2 : s'.parkedEarly = s.parkedEarly)
-    (hc : s'.info.connected = s.info.connected) : QC s0 s' := ⟨h.q.upd ho hn hp h1 h2, hc.trans h.c⟩
-theorem QC.mod {s0 s : Server} (h : QC s0 s) (i : Nat) (f : Client → Client)
-    (hf : OwnEq (getObj s i) (f (getObj s i))) : QC s0 (modObj s i f) := ⟨h.q.mod i f hf, h.c⟩
+    (hc : s'.info.connected = s.info.connected) : QCC s0 s' := ⟨h.q.upd ho hn hp h1 h2, hc.trans h.c⟩
+theorem QCC.mod {s0 s : Server} (h : QCC s0 s) (i : Nat) (f : Client → Client)
+    (hf : OwnEq (getObj s i) (f (getObj s i))) : QCC s0 (modObj s i f) := ⟨h.q.mod i f hf, h.c⟩
 
 theorem info_ite_connected (b : Bool) (x y : Info) (hx : x.connected = y.connected) :
     (if b = true then x else y).connected = y.connected := by
@@ -779,25 +779,25 @@ theorem info_ite_connected (b : Bool) (x y : Info) (hx : x.connected = y.connect
   · rfl
   · exact hx
 
-theorem clearInflights_qc (s : Server) (i : Nat) : QC s (clearInflights s i) :=
-  ⟨clearInflights_quiet s i, (clearInflights_core (P := fun _ => True) s i).conn⟩
+theorem clearInflights_qc (s : Server) (i : Nat) : QCC s (clearInflights s i) :=
+  ⟨clearInflights_quiet_cnt s i, (clearInflights_core (P := fun _ => True) s i).conn⟩
 
-theorem unsubscribeClient_qc (s : Server) (i : Nat) : QC s (unsubscribeClient s i) :=
+theorem unsubscribeClient_qc (s : Server) (i : Nat) : QCC s (unsubscribeClient s i) :=
   ⟨unsubscribeClient_quiet s i, (unsubscribeClient_core trivial_laws s i).conn⟩
 
 /-- the state in which `admitA` stops the existing client: the counter incremented, nothing else done -/
 def incConn (s : Server) : Server := { s with info := { s.info with connected := s.info.connected + 1 } }
 
-theorem incConn_quiet (s : Server) : Quiet s (incConn s) := (Quiet.refl s).upd rfl rfl rfl rfl rfl
+theorem incConn_quiet (s : Server) : QuietC s (incConn s) := (QuietC.refl s).upd rfl rfl rfl rfl rfl
 
 /-- a session for the client id exists: apart from stopping the existing client, `admitA` is quiet -/
 theorem admitA_qc_some (s : Server) (i : Nat) (k : Connect) (e : Nat) (he : assocGet s.clients k.id = some e) :
-    QC (stopClient (incConn s) e).1 (admitA s i k).1 := by
+    QCC (stopClient (incConn s) e).1 (admitA s i k).1 := by
   unfold admitA
   extract_lets +onlyGivenNames src s0 exLive
   split
   rename_i s' o1 present heq
-  refine QC.upd (s := s') ?_ rfl rfl rfl rfl rfl rfl
+  refine QCC.upd (s := s') ?_ rfl rfl rfl rfl rfl rfl
   have he0 : assocGet s0.clients k.id = some e := he
   split at heq
   · rename_i e' he'
@@ -816,24 +816,24 @@ theorem admitA_qc_some (s : Server) (i : Nat) (k : Connect) (e : Nat) (he : asso
     split at heq
     · extract_lets +onlyGivenNames s2 s3 at heq
       cases heq
-      have hs2 : QC s1 s2 := unsubscribeClient_qc s1 e'
-      have hs3 : QC s1 s3 := hs2.trans (clearInflights_qc s2 e')
+      have hs2 : QCC s1 s2 := unsubscribeClient_qc s1 e'
+      have hs3 : QCC s1 s3 := hs2.trans (clearInflights_qc s2 e')
       exact hs3.mod e' _ (by own_rfl)
     · extract_lets +onlyGivenNames s2 ex2 rmx s2i src2 s3 s4 s5 s6 at heq
       rw [← (Prod.mk.inj heq).1]
-      have hs2 : QC s1 s2 := (QC.refl s1).mod e' _ (by own_rfl)
-      have hs2i : QC s1 s2i := hs2.mod i _ (by own_rfl)
-      have hs3 : QC s1 s3 := by
-        show QC s1 (if ex2.inflight.length > 0 then _ else s2)
+      have hs2 : QCC s1 s2 := (QCC.refl s1).mod e' _ (by own_rfl)
+      have hs2i : QCC s1 s2i := hs2.mod i _ (by own_rfl)
+      have hs3 : QCC s1 s3 := by
+        show QCC s1 (if ex2.inflight.length > 0 then _ else s2)
         split
         · exact hs2i.upd rfl rfl rfl rfl rfl rfl
         · exact hs2
-      have hs4 : QC s1 s4 := by
-        refine foldl_inv (fun (x : Server) => QC s1 x) _ _ _ hs3 ?_
+      have hs4 : QCC s1 s4 := by
+        refine foldl_inv (fun (x : Server) => QCC s1 x) _ _ _ hs3 ?_
         intro b fs h
         extract_lets +onlyGivenNames rr src3 b1
-        exact (QC.upd (s' := b1) h rfl rfl rfl rfl rfl (info_ite_connected _ _ _ rfl)).mod i _ (by own_rfl)
-      have hs5 : QC s1 s5 := hs4.trans (unsubscribeClient_qc s4 e')
+        exact (QCC.upd (s' := b1) h rfl rfl rfl rfl rfl (info_ite_connected _ _ _ rfl)).mod i _ (by own_rfl)
+      have hs5 : QCC s1 s5 := hs4.trans (unsubscribeClient_qc s4 e')
       exact hs5.trans (clearInflights_qc s5 e')
   · rename_i hn
     rw [he0] at hn
@@ -841,19 +841,19 @@ theorem admitA_qc_some (s : Server) (i : Nat) (k : Connect) (e : Nat) (he : asso
 
 /-- no session for the client id: `admitA` only increments the counter and registers the client -/
 theorem admitA_qc_none (s : Server) (i : Nat) (k : Connect) (he : assocGet s.clients k.id = none) :
-    QC (incConn s) (admitA s i k).1 := by
+    QCC (incConn s) (admitA s i k).1 := by
   unfold admitA
   extract_lets +onlyGivenNames src s0 exLive
   split
   rename_i s' o1 present heq
-  refine QC.upd (s := s') ?_ rfl rfl rfl rfl rfl rfl
+  refine QCC.upd (s := s') ?_ rfl rfl rfl rfl rfl rfl
   have he0 : assocGet s0.clients k.id = none := he
   split at heq
   · rename_i e' he'
     rw [he0] at he'
     cases he'
   · cases heq
-    exact QC.refl _
+    exact QCC.refl _
 
 theorem admitA_exLive_eq (s : Server) (i : Nat) (k : Connect) :
     (admitA s i k).2.2.2 = match assocGet s.clients k.id with
@@ -885,11 +885,11 @@ theorem admitClient_fst (s : Server) (i conn : Nat) (k : Connect) :
   simp only [h1]
   split <;> rfl
 
-theorem admitConnack_qc (s : Server) (i conn : Nat) (present : Bool) : QC s (admitConnack s i conn present).1 :=
-  ⟨admitConnack_quiet s i conn present, (admitConnack_core (P := fun _ => True) s i conn present).conn⟩
+theorem admitConnack_qc (s : Server) (i conn : Nat) (present : Bool) : QCC s (admitConnack s i conn present).1 :=
+  ⟨admitConnack_quiet_cnt s i conn present, (admitConnack_core (P := fun _ => True) s i conn present).conn⟩
 
-theorem admitC_qc (s : Server) (i : Nat) (k : Connect) (present : Bool) : QC s (admitC s i k present).1 :=
-  ⟨admitC_quiet s i k present, (admitC_core (P := fun _ => True) s i k present).conn⟩
+theorem admitC_qc (s : Server) (i : Nat) (k : Connect) (present : Bool) : QCC s (admitC s i k present).1 :=
+  ⟨admitC_quiet_cnt s i k present, (admitC_core (P := fun _ => True) s i k present).conn⟩
 
 /-- object `i` is open and in none of the lists, and its handler has not passed the increment yet -/
 structure PreAdmit (t : Server) (i : Nat) : Prop where
@@ -902,8 +902,8 @@ structure PreAdmit (t : Server) (i : Nat) : Prop where
     taken-over handler leaving its read loop, anything quiet -/
 theorem admit_conn (t : Server) (i : Nat) (k : Connect) (hw : WF t) (hinf : InflInv t) (hp : PreAdmit t i)
     (hunreg : ¬ Reg t i) (hid : k.id ≠ inlineID)
-    (s2 : Server) (q2 : QC (admitA t i k).1 s2)
-    (s4 : Server) (q4 : QC (match (admitA t i k).2.2.2 with | some e => (detach s2 e true).1 | none => s2) s4)
+    (s2 : Server) (q2 : QCC (admitA t i k).1 s2)
+    (s4 : Server) (q4 : QCC (match (admitA t i k).2.2.2 with | some e => (detach s2 e true).1 | none => s2) s4)
     (hos4 : ∀ k, OS (getObj s4 k)) :
     ConnInv s4 ∧ InLoop s4 i ∧ (getObj s4 i).isOpen = true ∧ s4.pending = t.pending := by
   have hex := admitA_exLive_eq t i k
@@ -1105,7 +1105,7 @@ theorem preAdmit_new (s : Server) (hw : WF s) (hinf : InflInv s) (h : ConnInv s)
 theorem PreAdmit.stop {t : Server} {i : Nat} (hp : PreAdmit t i) (hos' : ∀ k, OS (getObj (stopClient t i).1 k)) :
     ConnInv (stopClient t i).1 := by
   obtain ⟨a, c⟩ := stopClient_act t i
-  have st := stopClient_stopped t i hp.loop.lt
+  have st := stopClient_stopped_cnt t i hp.loop.lt
   refine ⟨hp.side.of_act a hp.loop.np (fun p hq _ => hp.loop.npend p hq), ?_⟩
   have := hcount_act a hp.loop.lt
   rw [(hp.loop.act a).hb, hp.loop.hb, (hos' i).closed_of st, hp.isOpen, b2i_true, b2i_false] at this
@@ -1262,9 +1262,9 @@ theorem ConnInv.toParked {t t' : Server} {i : Nat} (h : ConnInv t) (hl : InLoop 
 theorem ConnInv.toParkedEarly {t : Server} {i : Nat} (h : ConnInv t) (hl : InLoop t i)
     (hopen : (getObj t i).isOpen = true) :
     ConnInv (modObj { t with parkedEarly := t.parkedEarly ++ [i] } i (fun c => { c with peerGone := true })) := by
-  have q : Quiet { t with parkedEarly := t.parkedEarly ++ [i] }
+  have q : QuietC { t with parkedEarly := t.parkedEarly ++ [i] }
       (modObj { t with parkedEarly := t.parkedEarly ++ [i] } i (fun c => { c with peerGone := true })) :=
-    (Quiet.refl _).mod i _ (by own_rfl)
+    (QuietC.refl _).mod i _ (by own_rfl)
   have hmid : ConnInv { t with parkedEarly := t.parkedEarly ++ [i] } := by
     refine ⟨⟨h.side.parked_stopped, ?_, ?_, h.side.pend1_live, h.side.conn_nz, h.side.parked_lt, ?_, h.side.id0,
       h.side.inl, h.side.pendOK, h.side.parked_nz, h.side.inl0⟩, ?_⟩
@@ -1450,17 +1450,17 @@ theorem connectHold_conn (s : Server) (conn : Nat) (k : Connect) (stage : Nat) (
   | none =>
     refine ite_fst_os _ _ _ (fun _ => hpark1 _) ?_
     -- stage 2: admitted, parked before the CONNACK
-    have hcore := admit_conn s1 i k w1 i1 pa f1.unreg hid (admitA s1 i k).1 (QC.refl _)
+    have hcore := admit_conn s1 i k w1 i1 pa f1.unreg hid (admitA s1 i k).1 (QCC.refl _)
     generalize admitA s1 i k = adm at hcore ⊢
     obtain ⟨t1, o1, present, exLive⟩ := adm
     cases exLive with
     | none =>
       intro hos'
-      obtain ⟨hc3, hl3, ho3, hp3⟩ := hcore t1 (QC.refl _) hos'
+      obtain ⟨hc3, hl3, ho3, hp3⟩ := hcore t1 (QCC.refl _) hos'
       exact hc3.park2 hl3 ho3 _ rfl (fun x => by cases x) (hc3.side.pendOK.snoc _ hid (by rw [hp3]; exact hfp))
     | some e =>
       intro hos'
-      obtain ⟨hc3, hl3, ho3, hp3⟩ := hcore (detach t1 e true).1 (QC.refl _) hos'
+      obtain ⟨hc3, hl3, ho3, hp3⟩ := hcore (detach t1 e true).1 (QCC.refl _) hos'
       exact hc3.park2 hl3 ho3 _ rfl (fun x => by cases x) (hc3.side.pendOK.snoc _ hid (by rw [hp3]; exact hfp))
 
 def unparkP (s : Server) (conn : Nat) : Server := { s with pending := s.pending.filter (·.conn != conn) }
@@ -1509,9 +1509,9 @@ theorem connectRelease_conn (s : Server) (p : Pending) (hw : WF s) (hinf : InflI
       intro _
       have hclosed : (getObj s p.obj).isOpen = false := (hinf.os _).closed_of hstop
       rw [hb, hclosed, b2i_true, b2i_false] at hcnt0
-      have q : Quiet (unparkP s p.conn)
+      have q : QuietC (unparkP s p.conn)
           { unparkP s p.conn with info := { (unparkP s p.conn).info with connected := (unparkP s p.conn).info.connected - 1 } } :=
-        (Quiet.refl _).upd rfl rfl rfl rfl rfl
+        (QuietC.refl _).upd rfl rfl rfl rfl rfl
       refine ⟨⟨side0.of_quiet q, ?_⟩, hl0.act (q.act p.obj)⟩
       rw [hcount_quiet q]
       show s.info.connected - 1 = _
@@ -1607,17 +1607,17 @@ instance (s : Server) (op : Op) : Decidable (OpSched s op) := by
 theorem OpSched.sched1 {s : Server} {op : Op} (h : OpSched s op) : OpSched1 s op :=
   fun i hi p hp _ => (h.1 i hi).1 p hp
 
-theorem tick_quiet (s : Server) (kind : String) (t : Int) : Quiet s (step s (.tick kind t)).1 := by
+theorem tick_quiet (s : Server) (kind : String) (t : Int) : QuietC s (step s (.tick kind t)).1 := by
   rw [step]
   split
   · exact tickClients_quiet s t
   · split
-    · exact tickRetained_quiet s t
+    · exact tickRetained_quiet_cnt s t
     · split
-      · exact tickInflight_quiet s t
+      · exact tickInflight_quiet_cnt s t
       · split
-        · exact tickWills_quiet s t
-        · exact Quiet.refl s
+        · exact tickWills_quiet_cnt s t
+        · exact QuietC.refl s
 
 /-- **the `connected` invariant is kept by every op** of a well-scheduled history -/
 theorem ConnInv_step (s : Server) (op : Op) (hw : WF s) (hf : OpFresh s op) (hs : OpSched s op) (hinf : InflInv s)
@@ -1633,7 +1633,7 @@ theorem ConnInv_step (s : Server) (op : Op) (hw : WF s) (hf : OpFresh s op) (hs 
       have := connect_wf s conn k hw hf
       rw [h1] at this; exact this
     obtain ⟨i1, hp1, hc1⟩ : InflInv s1 ∧ s1.pending = s.pending ∧ s1.connOf = s.connOf ++ [(conn, s.objs.length)] := by
-      have := connect_inv s conn k hw hinf hf
+      have := connect_inv_cnt s conn k hw hinf hf
       rw [h1] at this; exact this
     obtain ⟨c1, hl1⟩ : ConnInv s1 ∧ InLoop s1 s.objs.length := by
       have := connect_conn s conn k hw hf hinf h (by simpa [opIdOK] using hs.2)
@@ -1663,7 +1663,7 @@ theorem ConnInv_step (s : Server) (op : Op) (hw : WF s) (hf : OpFresh s op) (hs 
       · rename_i hst
         have hlive : (getObj s i).stopped = false := by simpa using hst
         extract_lets +onlyGivenNames s1
-        have q : Quiet s s1 := (Quiet.refl s).mod i _ (by own_rfl)
+        have q : QuietC s s1 := (QuietC.refl s).mod i _ (by own_rfl)
         have c1 : ConnInv s1 := h.of_quiet q rfl
         have hl : InLoop s i := InLoop.of_conn hw h hinf.os hc (hs.1 i hc).1 (hs.1 i hc).2 hlive
         have hopen1 : (getObj s1 i).isOpen = true := by
@@ -1684,7 +1684,7 @@ theorem ConnInv_step (s : Server) (op : Op) (hw : WF s) (hf : OpFresh s op) (hs 
           simp only [Bool.or_eq_true, not_or, Bool.not_eq_true] at hst
           exact hst.1
         extract_lets +onlyGivenNames s1
-        have q : Quiet s s1 := (Quiet.refl s).mod i _ (by own_rfl)
+        have q : QuietC s s1 := (QuietC.refl s).mod i _ (by own_rfl)
         have c1 : ConnInv s1 := h.of_quiet q rfl
         have g1 : Infl i 0 s s1 := ((Infl.refl i s).modOwn hw hi _ (by cl_rfl)).cast (by omega)
         have w1 : WF s1 := g1.wf hw
@@ -1725,7 +1725,7 @@ theorem ConnInv_step (s : Server) (op : Op) (hw : WF s) (hf : OpFresh s op) (hs 
       · rename_i hst
         have hlive : (getObj s i).stopped = false := by simpa using hst
         extract_lets +onlyGivenNames s1
-        have q : Quiet s s1 := (Quiet.refl s).mod i _ (by own_rfl)
+        have q : QuietC s s1 := (QuietC.refl s).mod i _ (by own_rfl)
         have c1 : ConnInv s1 := h.of_quiet q rfl
         have hl : InLoop s i := InLoop.of_conn hw h hinf.os hc (hs.1 i hc).1 (hs.1 i hc).2 hlive
         have hl1 := hl.act (q.act i)
@@ -1733,7 +1733,7 @@ theorem ConnInv_step (s : Server) (op : Op) (hw : WF s) (hf : OpFresh s op) (hs 
           rw [← (q.all i).isOpen]; exact (hinf.os i).open_of hlive
         intro _
         obtain ⟨a, c⟩ := detachA_act s1 i true
-        exact c1.toParked hl1 hopen1 a c (detachA_true_stopped s1 i hl1.lt)
+        exact c1.toParked hl1 hopen1 a c (detachA_true_stopped_cnt s1 i hl1.lt)
   | dropHoldEarly conn =>
     rw [step]
     split
@@ -1764,7 +1764,7 @@ theorem ConnInv_step (s : Server) (op : Op) (hw : WF s) (hf : OpFresh s op) (hs 
         unfold unparkP at this
         rw [h1] at this; exact this
       have i1 : InflInv s1 := by
-        have := connectRelease_inv _ p w0 i0 hv.1 hv.2 hnp (hinf.pend p hmem)
+        have := connectRelease_inv_cnt _ p w0 i0 hv.1 hv.2 hnp (hinf.pend p hmem)
         unfold unparkP at this
         rw [h1] at this; exact this
       obtain ⟨c1, hl1⟩ : ConnInv s1 ∧ InLoop s1 p.obj := by
@@ -1809,11 +1809,11 @@ theorem ConnInv_step (s : Server) (op : Op) (hw : WF s) (hf : OpFresh s op) (hs 
     rw [step]
     split
     · exact h
-    · exact h.of_quiet ((Quiet.refl s).upd rfl rfl rfl rfl rfl) rfl
+    · exact h.of_quiet ((QuietC.refl s).upd rfl rfl rfl rfl rfl) rfl
   | inlineUnsubscribe id filter =>
     rw [step]
     split
     · exact h
-    · exact h.of_quiet ((Quiet.refl s).upd rfl rfl rfl rfl rfl) rfl
+    · exact h.of_quiet ((QuietC.refl s).upd rfl rfl rfl rfl rfl) rfl
 
 end Mochi.Broker
